@@ -184,6 +184,36 @@ def run(ctx):
                     res[bi] = 'err-of:' + n + ' (returned as is)'
         return res
 
+    # private helpers of an entry point (reachable only through it) are transparent for the identity of a finding: an effect made by
+    # a helper is named by the effect, an error propagated from a helper by the helper's own error origins, and a finding inside the
+    # helper is attributed to the entry point - so that moving an arm of commit_changes into a function does not re-key a finding
+    helper_of = {}
+    for c in closure:
+        if c in ROOTS or not c.startswith('db::DbInner::') or '{closure' in c:
+            continue
+        owners = [r for r in ROOTS if r in F.bodies and lib.confined_through(F, c, {r})]
+        direct = [r for r in owners if c in F.callees(r)]
+        if len(direct) == 1:
+            helper_of[c] = direct[0]
+    def eff_labels(nm, depth=0):
+        if nm not in helper_of or depth > 3:
+            return {'call:' + nm}
+        out = set(l for _, l in deff.get(nm, []))
+        hb = F.body(nm)
+        for bi, t in hb.calls():
+            for n in call_names(t):
+                if n in may and n != nm:
+                    out |= eff_labels(n, depth + 1)
+        return out or {'call:' + nm}
+    def err_labels(o, depth=0):
+        m = re.match(r'^err-of:(\S+)( \(returned as is\))?$', o)
+        if not m or m.group(1) not in helper_of or depth > 3:
+            return {o}
+        out = set()
+        for o2 in error_exits(F.body(m.group(1))).values():
+            out |= err_labels(o2, depth + 1)
+        return out or {o}
+
     # err_after_effect fixed point + report
     findings = {}   # key -> detail
     eae = set()
@@ -216,9 +246,12 @@ def run(ctx):
                         continue
                     w = b.find_path(st, {eb})
                     if w:
-                        key = 'effect-before-error %s %s -> %s' % (c, lab, errs[eb])
-                        if key not in findings:
-                            findings[key] = (c, 'effect at %s, then error exit at %s: %s' % (b.loc(site), b.loc(eb), lib.short_path(b, [site] + w)), b.loc(site))
+                        labs_ = eff_labels(lab[5:]) if lab.startswith('call:') else {lab}
+                        for lab_ in sorted(labs_):
+                            for err_ in sorted(err_labels(errs[eb])):
+                                key = 'effect-before-error %s %s -> %s' % (helper_of.get(c, c), lab_, err_)
+                                if key not in findings:
+                                    findings[key] = (c, 'effect at %s, then error exit at %s: %s' % (b.loc(site), b.loc(eb), lib.short_path(b, [site] + w)), b.loc(site))
                         if c not in eae:
                             eae.add(c); grew = True
         if not grew:
@@ -232,8 +265,9 @@ def run(ctx):
             for n in call_names(t):
                 if n in may and n != c:
                     labs.add('call:' + n)
+        labs = set(x for lab in labs for x in (eff_labels(lab[5:]) if lab.startswith('call:') else {lab}))
         for lab in sorted(labs):
-            bad = [k for k in findings if k.startswith('effect-before-error %s %s -> ' % (c, lab))]
+            bad = [k for k in findings if k.startswith('effect-before-error %s %s -> ' % (helper_of.get(c, c), lab))]
             if not bad:
                 clean += 1
                 ctx.ob('ok no-error-after %s %s' % (c, lab), 'K6b-effect-before-error', c, 'no path from this effect to an error exit of the function', True, '')
